@@ -69,8 +69,9 @@ class ModuleBuild:
     """asn1c + clang + link of one driver binary for one module text."""
 
     def __init__(self, text, flags=DEFAULT_FLAGS, variant="asan", driver_src="driver.c", extra_objs=(),
-                 extra_cflags=(), keep=False, link_flags=()):
+                 extra_cflags=(), keep=False, link_flags=(), wrap=True):
         self.text = text
+        self.wrap = wrap          # additive (C19): wrap=False links without the allocation ledger (it is not thread-safe)
         self.flags = tuple(flags)
         self.variant = variant
         self.dir = mkwork()
@@ -104,10 +105,10 @@ class ModuleBuild:
             objs = list(ex.map(cc, srcs))
         lib = build.skel_lib(self.variant)
         drv = build.helper_obj(driver_src, self.variant)
-        aw = build.helper_obj("allocwrap.c", self.variant)
+        aw = [build.helper_obj("allocwrap.c", self.variant)] if self.wrap else []
         self.exe = os.path.join(self.dir, "driver")
-        cmd = [build.CLANG] + build.VARIANT_FLAGS[self.variant] + WRAP + list(link_flags) + \
-            [drv, aw] + list(extra_objs) + objs + [lib, "-lm", "-o", self.exe]
+        cmd = [build.CLANG] + build.VARIANT_FLAGS[self.variant] + (WRAP if self.wrap else []) + list(link_flags) + \
+            [drv] + aw + list(extra_objs) + objs + [lib, "-lm", "-o", self.exe]
         r = subprocess.run(cmd, stdout=subprocess.PIPE, stderr=subprocess.STDOUT)
         if r.returncode != 0:
             raise CompileError("link", r.returncode, r.stdout.decode(errors="replace"))
